@@ -229,8 +229,11 @@ pub trait ErasedIter {
     fn take_burst(&mut self, n: usize, cb: &mut dyn FnMut(Item));
     /// `it.nth(0)`
     fn nth0(&mut self) -> Option<Item>;
-    /// `it.by_ref().fold((), |(), item| cb(item))`
-    fn fold_all(&mut self, cb: &mut dyn FnMut(Item));
+    /// an internal-iteration method on `it.by_ref()`, every item it sees handed to `cb`:
+    /// 0 `fold`, 1 `for_each`, 2 `all(|x| x.is_ok())`, 3 `find(|x| x.is_err())`,
+    /// 4 `position(|x| x.is_err())`. (`reduce`, `max_by`, ... hold the first item back until the second has
+    /// been pulled, so an item could only be judged after later derivative calls: not driven.)
+    fn walk(&mut self, kind: u8, cb: &mut dyn FnMut(Item));
     /// `it.nth(m)`
     fn nth_m(&mut self, m: usize) -> Option<Item>;
     /// `it.count()`
@@ -275,8 +278,37 @@ where
     fn nth0(&mut self) -> Option<Item> {
         self.nth(0).map(conv::<T::Field, D>)
     }
-    fn fold_all(&mut self, cb: &mut dyn FnMut(Item)) {
-        self.by_ref().fold((), |(), item| cb(conv::<T::Field, D>(item)))
+    fn walk(&mut self, kind: u8, cb: &mut dyn FnMut(Item)) {
+        match kind {
+            1 => self.by_ref().for_each(|item| cb(conv::<T::Field, D>(item))),
+            2 => {
+                let _ = self.by_ref().all(|item| {
+                    let ok = item.is_ok();
+                    cb(conv::<T::Field, D>(item));
+                    ok
+                });
+            }
+            3 => {
+                let found = self.by_ref().find(|item| match item {
+                    Ok((t, v)) => {
+                        cb(Item::Ok { t: *t, len: v.len() });
+                        false
+                    }
+                    Err(_) => true,
+                });
+                if let Some(item) = found {
+                    cb(conv::<T::Field, D>(item));
+                }
+            }
+            4 => {
+                let _ = self.by_ref().position(|item| {
+                    let is_err = item.is_err();
+                    cb(conv::<T::Field, D>(item));
+                    is_err
+                });
+            }
+            _ => self.by_ref().fold((), |(), item| cb(conv::<T::Field, D>(item))),
+        }
     }
     fn nth_m(&mut self, m: usize) -> Option<Item> {
         self.nth(m).map(conv::<T::Field, D>)
